@@ -65,6 +65,26 @@ pub mod bitlem {
     pub broadcast proof fn lemma_or_mono_r(a: i32, b: i32, f: i32)
         requires b & f == f ensures #[trigger] ((a | b) & f) == f
     { assert(b & f == f ==> ((a | b) & f) == f) by (bit_vector); }
+    pub broadcast proof fn lemma_or_contains_r_u32(a: u32, b: u32) ensures #[trigger] ((a | b) & b) == b
+    { assert(((a | b) & b) == b) by (bit_vector); }
+    pub broadcast proof fn lemma_or_contains_l_u32(a: u32, b: u32) ensures #[trigger] ((a | b) & a) == a
+    { assert(((a | b) & a) == a) by (bit_vector); }
+    pub broadcast proof fn lemma_or_mono_l_u32(a: u32, b: u32, f: u32)
+        requires a & f == f ensures #[trigger] ((a | b) & f) == f
+    { assert(a & f == f ==> ((a | b) & f) == f) by (bit_vector); }
+    pub broadcast proof fn lemma_or_mono_r_u32(a: u32, b: u32, f: u32)
+        requires b & f == f ensures #[trigger] ((a | b) & f) == f
+    { assert(b & f == f ==> ((a | b) & f) == f) by (bit_vector); }
+    pub broadcast proof fn lemma_or_contains_r_u64(a: u64, b: u64) ensures #[trigger] ((a | b) & b) == b
+    { assert(((a | b) & b) == b) by (bit_vector); }
+    pub broadcast proof fn lemma_or_contains_l_u64(a: u64, b: u64) ensures #[trigger] ((a | b) & a) == a
+    { assert(((a | b) & a) == a) by (bit_vector); }
+    pub broadcast proof fn lemma_or_mono_l_u64(a: u64, b: u64, f: u64)
+        requires a & f == f ensures #[trigger] ((a | b) & f) == f
+    { assert(a & f == f ==> ((a | b) & f) == f) by (bit_vector); }
+    pub broadcast proof fn lemma_or_mono_r_u64(a: u64, b: u64, f: u64)
+        requires b & f == f ensures #[trigger] ((a | b) & f) == f
+    { assert(b & f == f ==> ((a | b) & f) == f) by (bit_vector); }
     /// `(S_IFxxx | (mode & !S_IFMT))` has exactly the type bits S_IFxxx and the permission bits of mode
     pub broadcast proof fn lemma_fmt_or_type(f: u32, m: u32)
         requires f & super::libc::S_IFMT == f
@@ -97,7 +117,7 @@ pub mod bitlem {
         ensures k & g == g
     { assert((k & f == f && f & g == g) ==> k & g == g) by (bit_vector); }
 }
-//@broadcast bitlem::lemma_fmt_or_type bitlem::lemma_fmt_or_perm bitlem::lemma_or_contains_r bitlem::lemma_or_contains_l bitlem::lemma_or_mono_l bitlem::lemma_or_mono_r
+//@broadcast bitlem::lemma_or_contains_r_u32 bitlem::lemma_or_contains_l_u32 bitlem::lemma_or_mono_l_u32 bitlem::lemma_or_mono_r_u32 bitlem::lemma_or_contains_r_u64 bitlem::lemma_or_contains_l_u64 bitlem::lemma_or_mono_l_u64 bitlem::lemma_or_mono_r_u64 bitlem::lemma_fmt_or_type bitlem::lemma_fmt_or_perm bitlem::lemma_or_contains_r bitlem::lemma_or_contains_l bitlem::lemma_or_mono_l bitlem::lemma_or_mono_r
 
 /// `bits` has every bit of `f`
 pub open spec fn has(bits: i32, f: i32) -> bool { bits & f == f }
